@@ -219,7 +219,12 @@ impl World {
     pub fn violation(&mut self, prop: &str, sig: impl Into<String>, detail: impl Into<String>) {
         let _g = alloc::MonGuard::new();
         let v = Violation { prop: prop.into(), sig: sig.into(), detail: detail.into() };
-        // Stream it right away: a later crash or hang must not lose it.
+        // Stream it right away: a later crash or hang must not lose it (the first few
+        // of every signature in full, the rest is only counted).
+        if !crate::out::note_violation(&v.prop, &v.sig) {
+            self.viol.push(v);
+            return;
+        }
         println!(
             "{{\"t\":\"viol\",\"prop\":{},\"sig\":{},\"detail\":{},\"scenario\":{},\"seed\":{},\"index\":{},\"trace\":{}}}",
             crate::out::jstr(&v.prop),
